@@ -143,6 +143,17 @@ def responses(rng, tier):
             add("chunk size of %d digits%s" % (k + 1, " with extension" if ext else ""), s, None, (len(chunked) + 16, len(chunked) + 17, len(chunked) + 18))
     for size in (b"0+00000000000000a", b"00+0000000000000a", b"+0000000000000000a", b"000000000000000000+a", b"0000000000000000000000000000000a", b"ffffffffffffffff", b"0ffffffffffffffff", b"10000000000000000"):
         add("chunk size %r" % size, chunked + size + b"\r\n0123456789\r\n0\r\n\r\n")
+    # relations between two elements: bytes decoded from earlier chunks + the size a later chunk announces, around the
+    # powers of two where a sum, a difference or a signed reading could wrap (sixth round: `len + size` checked_add)
+    for n in (1, 5, 16, 17):
+        for k in (31, 32, 63, 64):
+            for dd in (-1, 0, 1):
+                later = 2 ** k - n + dd
+                if 0 < later < 2 ** 64:
+                    add("chunk of %d bytes, then a chunk size of 2^%d-%d%+d" % (n, k, n, dd),
+                        chunked + b"%x\r\n" % n + b"d" * n + b"\r\n" + b"%X\r\n" % later + b"0123456789abcdef\r\n0\r\n\r\n", None, ())
+    for n in (1, 3):
+        add("%d chunks of one byte, then a chunk size of 2^64-1" % n, chunked + b"1\r\nx\r\n" * n + b"ffffffffffffffff\r\nabc", None, ())
     for line in (4094, 4095, 4096, 8191):
         ext = b";" + b"e" * (line - 2)
         add("chunk-size line of %d bytes" % line, chunked + b"5" + ext + b"\r\nHello\r\n0\r\n\r\n", None, (len(chunked) + 4095,))
